@@ -322,6 +322,11 @@ func driverMain(args []string) int {
 		}
 	}
 
+	// coverage-guided stage
+	if p.FuzzTarget != "" {
+		runFuzzStage(p, tier, merged, &inconclusive)
+	}
+
 	// race detector reports
 	if p.Race {
 		races := collectRaceReports(scratch)
@@ -722,4 +727,89 @@ func outermostRepoFrame(stack string) string {
 		return inner
 	}
 	return last
+}
+
+// ---------------------------------------------------------------- native fuzzing stage
+
+var reExecs = regexp.MustCompile(`execs: (\d+)`)
+var reInteresting = regexp.MustCompile(`new interesting: (\d+) \(total: (\d+)\)`)
+
+func runFuzzStage(p *Prop, tier string, merged *Result, inconclusive *[]string) {
+	n := p.FuzzExecsQuick
+	if tier == "thorough" {
+		n = p.FuzzExecsThorough
+	}
+	hdir := os.Getenv("VERIF_HARNESS")
+	if n <= 0 || hdir == "" {
+		merged.Classes["fuzz_stage_skipped"]++
+		return
+	}
+	args := []string{"test", "-tags", "verif", "-run", "^$", "-fuzz", "^" + p.FuzzTarget + "$", "-fuzztime", fmt.Sprintf("%dx", n)}
+	if mf := os.Getenv("VERIF_MODFILE"); mf != "" {
+		args = append(args, "-modfile="+mf)
+	}
+	args = append(args, "./props")
+	cmd := exec.Command("go", args...)
+	cmd.Dir = hdir
+	cmd.Env = append(os.Environ(), "GOFLAGS=-mod=mod", "GOPROXY=off", "GOSUMDB=off", "GOTOOLCHAIN=local")
+	out, err := cmd.CombinedOutput()
+	text := string(out)
+	if m := reExecs.FindAllStringSubmatch(text, -1); len(m) > 0 {
+		v, _ := strconv.ParseInt(m[len(m)-1][1], 10, 64)
+		merged.Classes["fuzz_executions"] += v
+		merged.Evaluations += v
+	}
+	if m := reInteresting.FindAllStringSubmatch(text, -1); len(m) > 0 {
+		v, _ := strconv.ParseInt(m[len(m)-1][2], 10, 64)
+		merged.Classes["fuzz_corpus_entries_with_new_coverage"] += v
+	}
+	// failing inputs are written next to the package: move them to the replay directory
+	cdir := filepath.Join(hdir, "props", "testdata", "fuzz", p.FuzzTarget)
+	files, _ := filepath.Glob(filepath.Join(cdir, "*"))
+	var moved []string
+	for _, f := range files {
+		dst := filepath.Join(VerifDir(), "replay", p.ID+"-fuzz-"+filepath.Base(f))
+		os.MkdirAll(filepath.Dir(dst), 0o755)
+		if b, e := os.ReadFile(f); e == nil {
+			os.WriteFile(dst, b, 0o644)
+			moved = append(moved, dst)
+		}
+		os.Remove(f)
+	}
+	if err == nil {
+		return
+	}
+	if !strings.Contains(text, "--- FAIL") {
+		*inconclusive = append(*inconclusive, "fuzz stage could not run: "+firstLines(strings.TrimSpace(text), 6))
+		return
+	}
+	where := ""
+	if m := regexp.MustCompile(`(github\.com/cloudflare/pat-go/[^\s(]+(?:\([^)]*\))?[^\s(]*)\(`).FindStringSubmatch(text); m != nil {
+		where = m[1]
+	}
+	msg := ""
+	for _, l := range strings.Split(text, "\n") {
+		t := strings.TrimSpace(l)
+		if strings.HasPrefix(t, "panic:") || strings.Contains(t, "allocated") || strings.Contains(t, "fatal error") || strings.Contains(t, "terminated unexpectedly") {
+			msg = t
+			break
+		}
+	}
+	if m := regexp.MustCompile(`fuzz_test\.go:\d+: (.*)`).FindStringSubmatch(text); m != nil {
+		msg = strings.TrimSpace(m[1])
+		if where == "" {
+			// the oracle's own message names the violation class: "<stage>: <key>: <text>"
+			parts := strings.SplitN(msg, ": ", 3)
+			if len(parts) >= 2 {
+				where = parts[1]
+			} else {
+				where = parts[0]
+			}
+			if len(where) > 80 {
+				where = where[:80]
+			}
+		}
+	}
+	merged.Violations = append(merged.Violations, Violation{Case: -1, Key: "fuzz:" + where, What: "coverage-guided stage: " + msg,
+		Detail: map[string]any{"failing_inputs": moved, "output": firstLines(text[max(0, len(text)-6000):], 80), "how_to_replay": "copy the failing input to harness/props/testdata/fuzz/" + p.FuzzTarget + "/ and run go test -tags verif -run " + p.FuzzTarget + " ./props"}})
 }
